@@ -651,6 +651,51 @@ fn raw_case<const N: usize>(ctx: &Ctx, idx: usize, id: String, hostile: bool) ->
             _ => {
                 // blocking receive
                 if !rx_used.is_empty() {
+                    // ... while an older completion is still unconsumed: `poll_receive` reports that
+                    // one at once, so `receive_wait` must refuse (WrongToken) and consume nothing —
+                    // never complete the older buffer's entry against this buffer
+                    if rxs.len() > N {
+                        continue;
+                    }
+                    let len = *rng.pick(&[1526usize, 1600, 2048]);
+                    let mut buf = vec![0xEEu8; len];
+                    with_nic(|n| {
+                        n.spin = SpinMode::None;
+                        n.spin_rx = None;
+                        n.spins = 0;
+                    });
+                    let r = guarded(|| net.receive_wait(&mut buf));
+                    let new = with_nic(|n| n.poll_rx());
+                    let r = match r {
+                        Ok(r) => r,
+                        Err(p) => {
+                            c.fail(format!("receive_wait panicked: {}", p));
+                            dead = true;
+                            continue;
+                        }
+                    };
+                    let out = match &r {
+                        Ok((h, p)) => format!("ok hdr={} pkt={} frame={}", h, p, if h + p <= buf.len() { canon_bytes(&buf[*h..h + p]) } else { "out-of-bounds".into() }),
+                        Err(e) => format!("err {:?}", e),
+                    };
+                    match new.last() {
+                        Some(ch) => {
+                            let tok = ch.head;
+                            c.step(format!("net rx_wait tok={} len={} ulen=0 wdata=-", tok, len), out);
+                            if r != Err(Error::WrongToken) {
+                                c.fail(format!("receive_wait returned {:?} while the completion of an older buffer (token {}) was pending: expected WrongToken with nothing consumed", r, rx_used[0]));
+                                dead = true;
+                            }
+                            rxs.push(RawRx { token: tok, buf, done: None });
+                            c.tag("rx_wait-behind-pending-completion");
+                        }
+                        None => {
+                            c.step(format!("net rx_wait tok=- len={} ulen=0 wdata=-", len), out);
+                            if r != Err(Error::QueueFull) {
+                                c.fail(format!("receive_wait returned {:?} without posting a buffer", r));
+                            }
+                        }
+                    }
                     continue;
                 }
                 let len = *rng.pick(&[1526usize, 1600, 2048]);
